@@ -121,6 +121,12 @@ def run(tier, seed, out):
     cases = [p for p in printed if "e" in p]
     design = [p for p in printed if "design" in p]
     out.extra["design_level_failures_on_model"] = len(design)
+    if tier == "thorough":
+        rnd, st = kit.simulate_many("C06_Rand", "C06_Rand", runs=8, num=4000, depth=120, seed=seed)
+        out.states += st
+        out.transitions += st
+        out.extra["random_deep_trees"] = len(rnd)
+        cases += [p for p in rnd if "e" in p]
     for i, c in enumerate(cases):
         c["id"] = i
     kit.log(f"C06: TLC generated {len(cases)} trees ({gen.wall:.1f}s)")
